@@ -46,3 +46,20 @@ def cntBy {α : Type} (p : α → Bool) (l : List α) : F := (((l.filter p).leng
 
 end
 end ZV
+
+namespace ZV
+section
+variable {F : Type} [Add F] [Sub F] [Mul F] [Div F] [NatCast F]
+
+/-- `np.nanmean`: mean of `f` over the elements where it is a number (`d x = true`) -/
+def nanmeanBy {α : Type} (d : α → Bool) (f : α → F) (l : List α) : F :=
+  sumBy (fun x => if d x then f x else ((0 : Nat) : F)) l / sumBy (fun x => if d x then ((1 : Nat) : F) else ((0 : Nat) : F)) l
+
+/-- `np.nanvar(·, ddof=1)`: sample variance of `f` over the elements where it is a number -/
+def nanvar1By {α : Type} (d : α → Bool) (f : α → F) (l : List α) : F :=
+  let m := nanmeanBy d f l
+  sumBy (fun x => if d x then (f x - m) * (f x - m) else ((0 : Nat) : F)) l /
+    (sumBy (fun x => if d x then ((1 : Nat) : F) else ((0 : Nat) : F)) l - ((1 : Nat) : F))
+
+end
+end ZV
